@@ -1,7 +1,7 @@
 /-
 Syntax trees of valid GAP/kbmag record texts, their rendering and denotation, and the
 step lemmas for the character loops of `GT.Model.GapParse`.  The invariant carried through
-all loops is `t.length + 2 ≤ fuel + i` (enough fuel for the rest of the text), and positions
+all loops is `2 * t.length + 2 ≤ fuel + 2 * i` (enough fuel for the rest of the text), and positions
 are described by `t.drop i = <what comes next>`.
 -/
 import GT.Model.GapParse
